@@ -76,6 +76,14 @@ namespace wc
                  c.secure = true;
                  return c;
              } },
+            // (round 6) the usual "never expires" value: the largest Max-Age there is
+            { "keep=1; Path=/; Max-Age=2147483647; HttpOnly", [] {
+                 Http::Cookie c("keep", "1");
+                 c.path     = "/";
+                 c.maxAge   = 2147483647;
+                 c.httpOnly = true;
+                 return c;
+             } },
         };
         return v;
     }
@@ -529,11 +537,11 @@ static void build_space(bool thorough, int Kops)
         gInts  = { 0, 7, 10, 105, -5 };
     }
     gHdrSets    = { {}, { 0 }, { 1 }, { 0, 2, 3 }, { 4, 5, 6 }, { 1, 3 }, { 7 }, { 7, 0 } };
-    gCookieSets = { {}, { 0 }, { 1, 2 } };
+    gCookieSets = { {}, { 0 }, { 1, 2 }, { 3 }, { 0, 3 } };
     if (!thorough)
     {
         gHdrSets    = { {}, { 0, 2, 3 }, { 1, 6 }, { 7 } };
-        gCookieSets = { {}, { 1, 2 } };
+        gCookieSets = { {}, { 1, 2 }, { 3 } };
     }
     gen_programs(Kops, !thorough);
     gBodies = req_bodies();
